@@ -76,6 +76,9 @@ class Den:
                     raise Violation('cycle in node table', node=n)
                 continue
             name = bdd.var_at_level(i)
+            if name not in U.idx:
+                raise Violation('a reachable node is labelled with a variable that none of the '
+                                'functions involved mentions', node=n, variable=repr(name))
             x = U.var(name)
             lo = memo[av]
             if v < 0:
